@@ -35,11 +35,16 @@ def case_strategy(draw, tier="quick"):
     group = draw(st.sampled_from([None, None, "col", "series", "mod2"]))
     if group == "mod2" and t["gkind"] == "str":
         group = "series"
-    expr = {"base": draw(st.sampled_from(["xy", "x", "y", "x"])),
+    expr = {"base": draw(st.sampled_from(["xy", "x", "y", "x", "z"])),
             "arith": draw(st.sampled_from([None, None, ["+", 1.5], ["*", 2.0], ["-", 0.25]])),
             "filter": draw(st.sampled_from([None, None, -1.0, 0.0, 1.0, 2.5])),
-            "assign": draw(st.booleans()) and False,
+            # optional second condition, combined with & or | (compound boolean filter)
+            "filter2": draw(st.sampled_from([None, None, None, ["&", 2], ["|", 4], ["&", 0]])),
+            # z = x <op> y assigned as a new column before everything else
+            "assign": draw(st.sampled_from(["+", "*", "-"])),
             "group": group}
+    if expr["filter"] is None:
+        expr["filter2"] = None
     expr["agg"] = draw(st.sampled_from(GAGGS if group else AGGS))
     if expr["agg"] == "value_counts":
         expr["base"] = draw(st.sampled_from(["y", "g", "x"]))
@@ -52,9 +57,7 @@ def case_strategy(draw, tier="quick"):
 
 def apply_expr(df, expr, streaming):
     """the same expression on a streamz DataFrame (streaming=True) or a pandas one"""
-    f = df
-    if expr["filter"] is not None:
-        f = f[f.x > expr["filter"]]
+    f = prepare(df, expr)
     if expr["group"]:
         if expr["group"] == "col":
             gb = f.groupby("g")
@@ -62,7 +65,7 @@ def apply_expr(df, expr, streaming):
             gb = f.groupby(f.g)
         else:
             gb = f.groupby(f.g % 2)
-        sel = {"xy": ["x", "y"], "x": "x", "y": "y"}[expr["base"]]
+        sel = {"xy": ["x", "y"], "x": "x", "y": "y", "z": "z"}[expr["base"]]
         gb = gb[sel]
         return getattr(gb, expr["agg"])()
     if expr["base"] == "xy":
@@ -80,11 +83,29 @@ def apply_expr(df, expr, streaming):
     return getattr(sel, a)()
 
 
-def elementwise(df, expr):
+def prepare(df, expr):
+    """assign + filter stage (elementwise, identical code for streamz and pandas frames)"""
     f = df
+    if expr.get("assign") and expr["base"] == "z":
+        op = expr["assign"]
+        z = f.x + f.y if op == "+" else (f.x * f.y if op == "*" else f.x - f.y)
+        f = f.assign(z=z)
     if expr["filter"] is not None:
-        f = f[f.x > expr["filter"]]
-    sel = f[["x", "y"]] if expr["base"] == "xy" else f[expr["base"] if expr["base"] in ("x", "y") else "y"]
+        cond = f.x > expr["filter"]
+        if expr.get("filter2"):
+            c2 = f.y < expr["filter2"][1]
+            cond = (cond & c2) if expr["filter2"][0] == "&" else (cond | c2)
+        f = f[cond]
+    return f
+
+
+def reaching(df, expr):
+    return prepare(df, expr)
+
+
+def elementwise(df, expr):
+    f = prepare(df, expr)
+    sel = f[["x", "y"]] if expr["base"] == "xy" else f[expr["base"] if expr["base"] in ("x", "y", "z") else "y"]
     if expr["arith"]:
         op, c = expr["arith"]
         sel = sel + c if op == "+" else (sel * c if op == "*" else sel - c)
@@ -114,7 +135,7 @@ def execute(case):
                       "batch %d (%d rows) of cuts %s: %r" % (k, len(b), cuts, e)))
             break
         prefix = pd.concat(bs[:k + 1])
-        reach = prefix if expr["filter"] is None else prefix[prefix.x > expr["filter"]]
+        reach = reaching(prefix, expr)
         # elementwise stage: per batch what pandas yields on that batch
         if len(ew) == k + 1:
             r = dc.same(ew[k], elementwise(b, expr))
@@ -133,8 +154,7 @@ def execute(case):
         exp = apply_expr(prefix, expr, False)
         r = dc.same(out[-1], exp)
         if r:
-            empty_before = any(len(x if expr["filter"] is None else x[x.x > expr["filter"]]) == 0
-                               for x in bs[:k + 1])
+            empty_before = any(len(reaching(x, expr)) == 0 for x in bs[:k + 1])
             cause = "after-empty-batch" if empty_before else \
                 ("with-nan" if prefix.x.isna().any() else "wrong-value")
             v.append(("%s:%s:%s" % (ID, name, cause),
